@@ -4116,3 +4116,151 @@ func init() {
 			return out
 		}})
 }
+
+// DELTAPREV — a "previous value" used to form a difference is updated where the difference is consumed.
+//
+// `mulBySmallMonomialMod2N(mask, acc, index-prevIndex); prevIndex = index` advances an accumulator by the distance to
+// the last *processed* index. If the update of prevIndex moves out of the block that consumes the difference (to the end
+// of the enclosing loop, say), indexes that are skipped still advance prevIndex and the accumulator falls behind by
+// their total: right when every index is processed — what the tests do — wrong for any sparse selection.
+//
+// Rule: for every local p with a use `e - p` and an assignment `p = e` where e is a loop variable of the function, the
+// assignment lies in the same innermost block as the use.
+func scanDeltaPrev(c *core.Ctx) []ob {
+	var out []ob
+	n := 0
+	c.FuncDecls(func(pk *packages.Package, file *ast.File, fd *ast.FuncDecl) {
+		if fd.Body == nil || fileIsTestSupport(c.Program, fd.Pos()) || inExamples(pk) {
+			return
+		}
+		info := pk.TypesInfo
+		fkey := core.FuncKey(pk, fd)
+		type use struct {
+			p   types.Object
+			e   string
+			blk *ast.BlockStmt
+			pos token.Pos
+		}
+		var uses []use
+		type asg struct {
+			p   types.Object
+			e   string
+			blk *ast.BlockStmt
+			pos token.Pos
+		}
+		var asgs []asg
+		var stack []*ast.BlockStmt
+		var walk func(n ast.Node)
+		walk = func(nd ast.Node) {
+			ast.Inspect(nd, func(x ast.Node) bool {
+				switch v := x.(type) {
+				case *ast.BlockStmt:
+					if v == nd {
+						return true
+					}
+					stack = append(stack, v)
+					walk(v)
+					stack = stack[:len(stack)-1]
+					return false
+				case *ast.CaseClause:
+					// a case body is its own block
+					blk := &ast.BlockStmt{Lbrace: v.Colon, List: v.Body, Rbrace: v.End()}
+					stack = append(stack, blk)
+					for _, s := range v.Body {
+						walk(s)
+					}
+					stack = stack[:len(stack)-1]
+					return false
+				case *ast.BinaryExpr:
+					if v.Op == token.SUB {
+						if id, ok := unparen(v.Y).(*ast.Ident); ok {
+							if o, ok := info.Uses[id].(*types.Var); ok && !o.IsField() && len(stack) > 0 {
+								uses = append(uses, use{o, exprString(v.X), stack[len(stack)-1], v.Pos()})
+							}
+						}
+					}
+				case *ast.AssignStmt:
+					if v.Tok == token.ASSIGN && len(v.Lhs) == len(v.Rhs) && len(stack) > 0 {
+						for i, l := range v.Lhs {
+							if id, ok := l.(*ast.Ident); ok {
+								if o, ok := info.Uses[id].(*types.Var); ok {
+									asgs = append(asgs, asg{o, exprString(v.Rhs[i]), stack[len(stack)-1], v.Pos()})
+								}
+							}
+						}
+					}
+				}
+				return true
+			})
+		}
+		stack = append(stack, fd.Body)
+		walk(fd.Body)
+		// loop variables: the expression e is the counter of an enclosing loop
+		loopVars := map[string]bool{}
+		ast.Inspect(fd.Body, func(x ast.Node) bool {
+			switch v := x.(type) {
+			case *ast.RangeStmt:
+				for _, e := range []ast.Expr{v.Key, v.Value} {
+					if id, ok := e.(*ast.Ident); ok && id.Name != "_" {
+						loopVars[id.Name] = true
+					}
+				}
+			case *ast.ForStmt:
+				if as, ok := v.Init.(*ast.AssignStmt); ok {
+					for _, l := range as.Lhs {
+						if id, ok := l.(*ast.Ident); ok {
+							loopVars[id.Name] = true
+						}
+					}
+				}
+			}
+			return true
+		})
+		seen := map[string]bool{}
+		for _, u := range uses {
+			if !loopVars[u.e] {
+				continue
+			}
+			var same, other *asg
+			for i := range asgs {
+				a := &asgs[i]
+				if a.p != u.p || a.e != u.e {
+					continue
+				}
+				if a.blk == u.blk || (a.blk.Pos() == u.blk.Pos() && a.blk.End() == u.blk.End()) {
+					same = a
+				} else {
+					other = a
+				}
+			}
+			if same == nil && other == nil {
+				continue
+			}
+			key := fmt.Sprintf("DELTAPREV:%s#%s", fkey, u.p.Name())
+			if seen[key] {
+				continue
+			}
+			seen[key] = true
+			n++
+			if same != nil {
+				out = append(out, withProps(okOb("DELTAPREV", key, c.Rel(u.pos), "the previous value is updated in the block that consumes the difference", true), propsForKey(fkey)...))
+			} else {
+				out = append(out, withProps(violOb("DELTAPREV", key, c.Rel(other.pos), fmt.Sprintf("%s forms the difference %s - %s at %s but assigns %s = %s in another block: the previous value also advances (or fails to advance) when the difference is not consumed, and the accumulated total drifts for every selection that skips an element", fkey, u.e, u.p.Name(), c.Rel(u.pos), u.p.Name(), u.e)), propsForKey(fkey)...))
+			}
+		}
+	})
+	c.Stats["deltaprev_sites"] = n
+	return out
+}
+
+func init() {
+	core.Register(&core.Rule{Name: "DELTAPREV", Wide: true, Props: []string{"C20"},
+		Doc: "for every local p with a use `e - p` and an assignment `p = e` where e is a loop variable, the assignment is in the same innermost block as the use",
+		Run: func(c *core.Ctx) []ob {
+			out := scanDeltaPrev(c)
+			for _, o := range control(c, "DELTAPREV", scanDeltaPrev, "lvfixture.walkSelected") {
+				out = append(out, withProps(o, "C20"))
+			}
+			return out
+		}})
+}
